@@ -201,6 +201,8 @@ static int gen_page(const tspec_t* f, int g, int p, int c, uint8_t* vals, int16_
 /* Build the schema and write the table.  armed: count/fail allocation requests inside API calls.
  * after_close: what to do with the writer after a failed call (0 abort, 1 close).  Returns 0 when
  * every call reported success. */
+static int g_cont_retry = 0, g_cont_rgs = 0, g_cont_used = 0, g_cont_result = -1;   /* continuation after a failed new_row_group */
+static int g_big_pages = 0;   /* write variants ending in 'P': default page size, pages are closed by the row-group finalize */
 static int g_use_file = 0;   /* writef: carquet_writer_create_file on a FILE* of the caller, default options */
 static int do_write(const tspec_t* f, int armed, int after_close) {
     carquet_error_t err = CARQUET_ERROR_INIT;
@@ -221,7 +223,7 @@ static int do_write(const tspec_t* f, int armed, int after_close) {
         if (st != CARQUET_OK) { if (armed) ARM(); carquet_schema_free(sc); DISARM(); return 1; }
     }
     carquet_writer_options_t wo; carquet_writer_options_init(&wo);
-    wo.compression = (carquet_compression_t)f->codec; wo.page_size = 1;
+    wo.compression = (carquet_compression_t)f->codec; wo.page_size = g_big_pages ? (1 << 20) : 1;   /* 1: every write_batch closes a page */
     FILE* ownfile = NULL;
     carquet_writer_t* w;
     if (g_use_file) {
@@ -261,7 +263,20 @@ static int do_write(const tspec_t* f, int armed, int after_close) {
             carquet_status_t st = carquet_writer_new_row_group(w);
             DISARM();
             rec("rg", st, st == CARQUET_OK);
-            if (st != CARQUET_OK) bad = 1;
+            if (st != CARQUET_OK) {
+                /* a failed carquet_writer_new_row_group: the rows of this row group were all handed over by calls
+                 * that succeeded.  "retry": call it again and go on writing; otherwise close (or abort).  When the
+                 * calls AFTER the failed one all report success, the file must hold exactly the rows written. */
+                g_cont_rgs = g + 1;
+                if (g_cont_retry) {
+                    if (armed) ARM();
+                    carquet_status_t st2 = carquet_writer_new_row_group(w);
+                    DISARM();
+                    rec("rg_retry", st2, 1);
+                    if (st2 == CARQUET_OK) { g_cont_rgs = f->nrg; g_cont_used = 1; }
+                    else bad = 1;
+                } else bad = 1;
+            }
         }
     }
     free(def); free(rep); free(vals); free(strs);
@@ -274,7 +289,8 @@ static int do_write(const tspec_t* f, int armed, int after_close) {
         if (armed) ARM();
         carquet_status_t st = carquet_writer_close(w);
         DISARM();
-        if (bad) rec("cl_after_error", st, 1); else { rec("cl", st, st == CARQUET_OK); if (st != CARQUET_OK) bad = 1; }
+        if (bad) { rec("cl_after_error", st, 1); if (st == CARQUET_OK && g_cont_rgs > 0) g_cont_used = 2; }
+        else { rec("cl", st, st == CARQUET_OK); if (st != CARQUET_OK) { bad = 1; g_cont_used = 0; } }
     }
     if (ownfile) { fclose(ownfile); if (bad) remove(f->path); }
     if (armed) ARM();
@@ -824,8 +840,8 @@ static void run_child(int t0, long fail_at, int record, child_res* res) {
         uint64_t eff = 0; long fsize = -1;
         int bad = run_scenario(t0, 1, &eff, &fsize);
         int leak = __lsan_do_recoverable_leak_check();
-        printf("calls=%s ok=%d eff=%016llx fsize=%ld leak=%d reqs=%ld hit=%d rb=%d", g_calls[0] ? g_calls : "-", (!bad && g_allok) ? 1 : 0,
-               (unsigned long long)eff, fsize, leak ? 1 : 0, SH->count, SH->failed_seen, g_readback);
+        printf("calls=%s ok=%d eff=%016llx fsize=%ld leak=%d reqs=%ld hit=%d rb=%d rbc=%d", g_calls[0] ? g_calls : "-", (!bad && g_allok) ? 1 : 0,
+               (unsigned long long)eff, fsize, leak ? 1 : 0, SH->count, SH->failed_seen, g_readback, g_cont_result);
         fflush(stdout);
         COV_FLUSH();
         _exit(0);
@@ -879,10 +895,22 @@ static int run_scenario(int t0, int armed, uint64_t* eff, long* fsize) {
     if (!strcmp(kind, "writef")) { g_use_file = 1; kind = "write"; }
     if (!strcmp(kind, "write")) {
         if (parse_tspec(&f, t0 + 1, "w") < 0) return 1;
-        int after_close = h_ntok > t0 + 7 && !strcmp(h_tok[t0 + 7], "close");
+        const char* after = h_ntok > t0 + 7 ? h_tok[t0 + 7] : "abort";
+        int after_close = !strncmp(after, "close", 5) || !strncmp(after, "retry", 5);
+        g_cont_retry = !strncmp(after, "retry", 5);
+        g_big_pages = after[0] && after[strlen(after) - 1] == 'P';
         remove(f.path);
         int bad = do_write(&f, armed, after_close);
         *eff = file_hash(f.path, fsize);
+        if (g_cont_used && SH->fail_at != 0 && !strchr(f.types, 'r') && !strchr(f.types, 'q')) {
+            /* every call after the failed new_row_group reported success (retry + the rest + close, or close alone):
+             * the file must read back to the row groups that were written */
+            tspec_t part = f; part.nrg = g_cont_rgs;
+            uint64_t got = 0; size_t keep = g_ncalls; int ok = g_allok;
+            int rb = do_read(&part, f.path, "fread", 0, &got);
+            g_ncalls = keep; g_calls[keep] = 0; g_allok = ok;
+            g_cont_result = (!rb && got == intended_hash(&part)) ? 1 : 0;
+        }
         if (!bad && SH->fail_at == 0 && !strchr(f.types, 'r') && !strchr(f.types, 'q')) {
             /* fault-free run: the file must read back (no faults injected) to the intended table; the runs
              * with a failing request are then compared with this file byte for byte */
